@@ -62,6 +62,28 @@ Section C07.
       e_kind e1 <> EShared -> e_kind e2 <> EShared -> e_to e1 = e_to e2.
   Proof. exact (thm_one_version_observable c_version c_versions c_requirements is_simple cmatch vless). Qed.
 
+  (* ---- what the exception above consists of: an edge made through the shared-node shortcut points to a node
+     that was created for ANOTHER artifact key (or to the root, for a key that is not the root's).  For every
+     client; this is the exact shape of finding F-C07-1. *)
+  Theorem C07_shared_edges : forall fuel root g,
+    resolve fuel root = Ok g ->
+    forall e, In e (g_edges g) -> e_kind e = EShared ->
+      (e_to e = root /\ e_mk e <> root_mkey root) \/
+      (exists s, In s (g_edges g) /\ e_kind s = ECreated /\ e_to s = e_to e /\ e_mk s <> e_mk e).
+  Proof. exact (thm_shared_target c_version c_versions c_requirements is_simple cmatch vless). Qed.
+
+  (* ---- at most one version of each artifact, FULL (no exception for shared-node edges), for the graphs in which
+     no package occurs with two (classifier, type) variants: the hypothesis is read off the returned graph
+     (single_variant; with C07_ghost_consistent the key of an edge is its target package and its type), and it is
+     exactly the complement of the class of F-C07-1.  Such a graph has no shared-node edge at all. *)
+  Theorem C07_one_version_single_variant : forall fuel root g,
+    version_faithful c_version -> versions_faithful c_versions -> resolve fuel root = Ok g ->
+    single_variant root g ->
+    (forall e, In e (g_edges g) -> e_kind e <> EShared) /\
+    (forall e1 e2, In e1 (g_edges g) -> In e2 (g_edges g) -> e_mk e1 = e_mk e2 -> e_to e1 = e_to e2) /\
+    (forall e, In e (g_edges g) -> e_mk e = root_mkey root -> e_to e = root).
+  Proof. exact (thm_one_version_single_variant c_version c_versions c_requirements is_simple cmatch vless). Qed.
+
   (* ---- every edge whose requirement is a range points to a version inside that range *)
   Theorem C07_range_edges : forall fuel root g,
     version_faithful c_version -> resolve fuel root = Ok g ->
@@ -137,6 +159,36 @@ Section C07.
               forall e, In e (e0 :: rest) -> e_to e = v_vk v.
   Proof. exact (thm_nearest_single_pass c_version c_versions c_requirements is_simple cmatch vless). Qed.
 
+  (* ---- nearest wins with ranges in play, when the first pass succeeds (no retry): the FIRST declaration of an
+     artifact key, in creation = breadth-first order, decides alone, whatever is declared later and whether it is
+     a soft version or a range: its edge points to what findMatch answers on that ONE requirement (soft: that
+     version; range: the first listed version inside it), and every further edge of the key follows it (edges
+     made through the shared-node shortcut excepted, see C07_shared_edges).  This is "the declaration nearest to
+     the root, first in breadth-first order" of the property text without the all-soft restriction of
+     C07_nearest_partial; after a retry it is false (C07_nearest_refuted). *)
+  Theorem C07_first_declaration_decides : forall fuel root R g,
+    pass fuel root [] = (R, Ok g) ->
+    resolve fuel root = Ok g /\
+    forall k, (forall ne, In ne (g_errs g) -> ne_mk ne <> k) ->
+    forall e0 rest, filter (on_k k) (g_edges g) = e0 :: rest ->
+      (exists m, find_match [e_dvk e0] = Ok m /\ e_to e0 = v_vk m) /\
+      (e_kind e0 <> EShared -> forall e, In e rest -> e_kind e <> EShared -> e_to e = e_to e0).
+  Proof. exact (thm_first_decides c_version c_versions c_requirements is_simple cmatch vless). Qed.
+
+  (* ---- which version is selected, for EVERY number of passes: the last edge of an artifact key points to what
+     findMatch answers on the FINAL requirement list of the key (soft versions in the order met, else the first
+     listed version inside all ranges), and every other edge of the key that is not a shared-node edge points to
+     the same version.  This is the rule the direct oracle evaluates with its own findMatch on the Go graphs
+     (harness/props/C07.py, selection_hits); it explains F-C07-2: after a retry the final list still starts with
+     the requirements of the abandoned passes. *)
+  Theorem C07_final_list_decides : forall fuel root R g,
+    resolve_full fuel root = (R, Ok g) ->
+    forall k, (forall ne, In ne (g_errs g) -> ne_mk ne <> k) ->
+    forall es el, filter (on_k k) (g_edges g) = es ++ [el] ->
+      exists m, find_match (reqs_of R k) = Ok m /\ e_to el = v_vk m /\
+                (e_kind el <> EShared -> forall e, In e es -> e_kind e <> EShared -> e_to e = v_vk m).
+  Proof. exact (thm_final_list_decides c_version c_versions c_requirements is_simple cmatch vless). Qed.
+
   (* ---- when no version satisfies the requirements a node error is reported instead (the other
      outcome, the incompatible-requirements error, is a resolution that returns no graph).
      (a) one declaration: if findMatch answers errNoMatch the step records the node error and goes
@@ -205,8 +257,12 @@ Print Assumptions C07_exclusions.
 Print Assumptions C07_management.
 Print Assumptions C07_nearest_requirements.
 Print Assumptions C07_nearest_partial.
+Print Assumptions C07_first_declaration_decides.
+Print Assumptions C07_final_list_decides.
 Print Assumptions C07_no_match_reported.
 Print Assumptions C07_ghost_consistent.
+Print Assumptions C07_shared_edges.
+Print Assumptions C07_one_version_single_variant.
 Print Assumptions C07_one_version_observable_partial.
 Print Assumptions C07_retry_monotone.
 
@@ -253,6 +309,29 @@ Theorem C07_table_resolve_total : forall t root, tb_plain t = true ->
     match table_resolve t fuel root with Panic _ => False | OutOfFuel => False | _ => True end.
 Proof. exact table_resolve_total. Qed.
 Print Assumptions C07_table_resolve_total.
+
+Example C07_example_single_variant :
+  version_faithful (tc_version ex_tables) /\ versions_faithful (tc_versions ex_tables) /\
+  single_variant ex_root ex_graph /\ length (filter (on_k ex_c) (g_edges ex_graph)) = 2%nat.
+Proof. exact (conj ex_faithful (conj ex_versions_faithful (conj ex_single_variant (proj1 (proj2 (proj2 (proj2 (proj2 (proj2 (proj2 ex_shape)))))))))). Qed.
+Example C07_example_first_declaration_range :
+  match filter (on_k ex_b) (g_edges ex_graph) with
+  | e0 :: _ => bytes_eqb (e_req e0) [91;49;44;50;93] && bytes_eqb (vk_ver (e_to e0)) [50]
+  | [] => false
+  end = true
+  /\ forallb (fun ne => if mkey_dec (ne_mk ne) ex_b then false else true) (g_errs ex_graph) = true.
+Proof. exact ex_first_is_range. Qed.
+Example C07_example_final_list :
+  resolve_full (tc_version w2_tables) (tc_versions w2_tables) (tc_requirements w2_tables) (tc_simple w2_tables)
+               (tc_match w2_tables) (tc_less w2_tables) 50 w2_root = (w2_reqs, Ok w2_graph)
+  /\ map vk_ver (reqs_of w2_reqs w2_k) = [[49]; [50]]
+  /\ length (filter (on_k w2_k) (g_edges w2_graph)) = 1%nat
+  /\ forallb (fun ne => if mkey_dec (ne_mk ne) w2_k then false else true) (g_errs w2_graph) = true.
+Proof. exact w2_full. Qed.
+Example C07_example_shared_edge :
+  existsb (fun e => match e_kind e with EShared => true | _ => false end) (g_edges w1_graph) = true
+  /\ single_variantb w1_root w1_graph = false.
+Proof. exact w1_has_shared_edge. Qed.
 
 Example C07_example_total_hypotheses : tb_plain ex_tables = true.
 Proof. exact ex_plain. Qed.
